@@ -157,6 +157,7 @@ def _dig(sim):
 # simulators
 # --------------------------------------------------------------------------
 
+CONSTRUCTOR_PATHS = ["kl", "kl2d", "klmulti", "klmixed", "klobj", "klmobj", "bms", "bmg", "bmf", "ds"]
 KL_FAMILIES = ["fourier", "legendre", "wiener", "bsplines"]
 
 
@@ -172,7 +173,7 @@ def _make_sim(spec, seed):
 
     k = spec["kind"]
     m = spec["m"]
-    if spec.get("fam") == "bsplines" and k in ("kl", "klmulti"):
+    if spec.get("fam") == "bsplines" and k in ("kl", "klmulti", "klobj", "klmobj"):
         spec["K"] = 5  # cubic B-splines need at least 4 functions (3 gives NaN basis values: 0 segments)
     if spec.get("fam") == "bsplines" and k in ("klmixed", "kl2d"):
         spec["fam"] = "wiener"  # two cubic B-spline functions give NaN basis values
@@ -197,6 +198,21 @@ def _make_sim(spec, seed):
         return KarhunenLoeve(n_functions=[(2, 2), 4], basis_name=[("fourier", "fourier"), f1],
                              argvals=None if noargs else [DenseArgvals({"input_dim_0": np.linspace(0, 1, m), "input_dim_1": np.linspace(0, 1, 3)}),
                                                           DenseArgvals({"input_dim_0": _grid_for(f1, m)})], random_state=seed, **kwb)
+    if k == "klobj":
+        # a user-defined basis OBJECT (`basis_name=None, basis=<Basis>`)
+        from FDApy.representation.basis import Basis
+
+        fam = spec["fam"]
+        b = Basis(name=fam, n_functions=spec["K"], argvals=DenseArgvals({"input_dim_0": _grid_for(fam, m)}), **kwb)
+        return KarhunenLoeve(basis_name=None, basis=b, random_state=seed)
+    if k == "klmobj":
+        # a user-defined MULTIVARIATE basis object
+        from FDApy.representation.basis import MultivariateBasis
+
+        f1, f2 = spec["fam"], spec["fam2"]
+        mb = MultivariateBasis(name=[f1, f2], n_functions=[spec["K"], spec["K"]],
+                               argvals=[DenseArgvals({"input_dim_0": _grid_for(f1, m)}), DenseArgvals({"input_dim_0": _grid_for(f2, m + 2)})], **kwb)
+        return KarhunenLoeve(basis_name=None, basis=mb, random_state=seed)
     if k in ("bms", "bmg", "bmf"):
         return Brownian(name={"bms": "standard", "bmg": "geometric", "bmf": "fractional"}[k], random_state=seed)
     if k == "ds":
@@ -205,11 +221,11 @@ def _make_sim(spec, seed):
 
 
 def _kind_tok(spec):
-    return {"kl": "kl", "kl2d": "kl", "klmulti": "kl", "klmixed": "kl", "bms": "bms", "bmg": "bmg", "bmf": "bmf", "ds": "ds"}[spec["kind"]]
+    return {"kl": "kl", "kl2d": "kl", "klmulti": "kl", "klmixed": "kl", "klobj": "kl", "klmobj": "kl", "bms": "bms", "bmg": "bmg", "bmf": "bmf", "ds": "ds"}[spec["kind"]]
 
 
 def _n_comp(spec):
-    return 2 if spec["kind"] in ("klmulti", "klmixed") else 1
+    return 2 if spec["kind"] in ("klmulti", "klmixed", "klmobj") else 1
 
 
 def _all_2d(spec):
@@ -237,7 +253,7 @@ def _do_call(sim, spec, call):
 # --------------------------------------------------------------------------
 
 def _gen_spec(rng: Rng):
-    kind = rng.choice(["kl", "kl", "kl", "kl2d", "klmulti", "klmixed", "bms", "bmg", "bmf", "ds", "ds"])
+    kind = rng.choice(["kl", "kl", "kl", "kl2d", "klmulti", "klmixed", "klobj", "klmobj", "bms", "bmg", "bmf", "ds", "ds"])
     return dict(kind=kind, fam=rng.choice(KL_FAMILIES), fam2=rng.choice(["fourier", "legendre", "wiener"]),
                 K=rng.choice([1, 2, 3, 5]) if kind != "kl" else rng.choice([2, 3, 5]), m=rng.randint(4, 9), grid_int=rng.random() < 0.3)
 
@@ -266,6 +282,17 @@ def _gen_calls(rng: Rng, spec, n_max):
 
 def gen_cases(rng: Rng, tier):
     nt, nl, ne, nk, nb, ng = dict(quick=(140, 60, 40, 60, 50, 30), thorough=(1500, 155, 100, 600, 500, 200))[tier]
+    # every way of constructing each simulator x seeding, the same grid every run: basis by name (1-D, 2-D, multivariate,
+    # mixed), by object, multivariate basis object, the three Brownian kinds, Datasets; seeds 0, a small one, a large one
+    for ci, ckind in enumerate(CONSTRUCTOR_PATHS):
+        for si, sd in enumerate((0, 7, 2**31 + 11)):
+            spec = _gen_spec(rng)
+            spec["kind"] = ckind
+            spec["K"] = 3 if ckind in ("kl", "klobj", "klmulti", "klmobj") else spec["K"]
+            calls = [dict(op="new", n_obs=(3, 5, 2)[si], n_clusters=(1, 2, 3)[(ci + si) % 3], g_before=1, g_between=2),
+                     dict(op=("noise", "comb", "sparse")[(ci + si) % 3], var=0.5, p=0.5, e=0.1, g_before=0, g_between=1),
+                     dict(op="new", n_obs=2, n_clusters=1, g_before=0, g_between=3)]
+            yield dict(kind="twin", spec=spec, seed=sd, seed_type="int", gseed=rng.randint(0, 10**6), calls=calls, grid="constructor_paths")
     for _ in range(nt):
         spec = _gen_spec(rng)
         # boundary seeds are drawn explicitly: 0 (falsy), 1, the largest 32-bit value
@@ -1004,7 +1031,7 @@ def oracle(case, impl):
     if kind == "twin":
         spec = case["spec"]
         seeded = case["seed"] is not None
-        cls = {"kl": "KarhunenLoeve", "kl2d": "KarhunenLoeve", "klmulti": "KarhunenLoeve", "klmixed": "KarhunenLoeve", "bms": "Brownian", "bmg": "Brownian",
+        cls = {"kl": "KarhunenLoeve", "kl2d": "KarhunenLoeve", "klmulti": "KarhunenLoeve", "klmixed": "KarhunenLoeve", "klobj": "KarhunenLoeve", "klmobj": "KarhunenLoeve", "bms": "Brownian", "bmg": "Brownian",
                "bmf": "Brownian", "ds": "Datasets"}[spec["kind"]]
         meth = {"new": "new", "noise": "add_noise", "sparse": "sparsify", "comb": "add_noise_and_sparsify"}
         prev_new = None
